@@ -119,7 +119,7 @@ func execC37(c *hlib.Ctx, tok []string) string {
 
 func genC37(c *hlib.Ctx) {
 	rr := c.R
-	n := c.N(1200, 30000)
+	n := c.N(1200, 20000)
 	pairs := [][2]int64{{300000, 3600000}, {300000, 3600000}, {300000, 3600000}, {50, 100}, {10, 120}, {1000, 5000}, {7, 21}, {50, 50}}
 	hangs := 0 // calls that did not return cost a full deadline each: stop provoking them after two
 	childCases, maxChild := 0, c.N(12, 150) // numChunks > len runs in a child process first: bounded
